@@ -26,7 +26,7 @@ class Buf:
     def __init__(s, name, cty, n, role='in', align=None, init='sym'):
         s.name = name; s.cty = cty; s.n = n * ncomp(cty); s.role = role; s.kind, s.w = CT[cty]
         s.es = s.w // 8; s.align = align or s.es; s.init = init   # init: 'sym' | 'undef' | list of python values
-        s.nel = n
+        s.nel = n; s.fixed = {}   # element index -> concrete value (rest symbolic)
 
     def cparam(s):
         c = 'const ' if s.role == 'in' else ''
@@ -102,7 +102,11 @@ class Case:
                 continue
             r = it.new_region(a.name, a.n * a.es, a.align, 'arg', writable=(a.role != 'in'))
             if a.init == 'sym' and a.role != 'out':
-                for i in range(a.n): r.cells[i * a.es] = (s.elem_var(a, i, dom), a.es)
+                for i in range(a.n):
+                    if i in a.fixed:
+                        v = a.fixed[i]
+                        r.cells[i * a.es] = ((dom.const(f2bits(float(v), 64), a.w) if a.kind == 'f' else mask(int(v), a.w)), a.es)
+                    else: r.cells[i * a.es] = (s.elem_var(a, i, dom), a.es)
             elif a.init == 'sym' and a.role == 'out':
                 pass   # uninitialised: an element the kernel leaves unwritten stays UNDEF and is reported
             elif isinstance(a.init, list):
@@ -126,7 +130,7 @@ class Case:
         while work:
             dec = work.pop()
             dom = dom_factory()
-            it = Interp(mod, dom, decisions=dec, pc=base_pc, stats=stats)
+            it = Interp(mod, dom, decisions=dec, pc=base_pc, stats=stats); it.name_ite = getattr(s, 'name_ite', False)
             args, bufs = s.make_args(it, dom)
             status = 'ok'; ret = None; info = ''
             try:
